@@ -62,3 +62,6 @@ pub assume_specification<T>[ Option::<T>::replace ](o: &mut Option<T>, value: T)
 pub uninterp spec fn string_byte_len(s: &String) -> usize;
 #[verifier::when_used_as_spec(string_byte_len)]
 pub assume_specification[ String::len ](s: &String) -> (r: usize) ensures r == string_byte_len(s);
+// R40: `s.contains('c')` for a char pattern (std contract, ASSUMED)
+#[verifier::external_body]
+pub fn shim_str_contains_char(s: &str, c: char) -> (r: bool) ensures r == s@.contains(c) { s.contains(c) }
